@@ -70,6 +70,11 @@ def check_save(rep, repo):
             if ws.get(meth):
                 rep.ev("SAVE-pure", e, False,
                        f"saving alters the model: {meth}() writes {sorted(ws[meth])[:4]} on state shared with the original")
+    # ... nor writes in place into an array / list the model holds, through any view (a diagnostic that masks the diagonal of
+    # "its copy" made with np.asarray)
+    from ..rules_premise import inplace_writes
+    for e, r, how in inplace_writes(w, shares_model):
+        rep.ev("SAVE-pure", e, False, f"saving alters the model: {how} on '{show(r)[:60]}', which the object being saved holds")
     rep.fn("SAVE-pure-summary", fi, "save has an empty write set on the model", True)
 
 
